@@ -312,6 +312,15 @@ impl Report {
                     let mut local = Report::new();
                     local.cur_stream = stream;
                     local.max_samples = 2;
+                    // Journal-before-call: with RFMON_JOURNAL_DIR set, every
+                    // case is recorded before it runs, so that a case which
+                    // kills the process (allocation failure, stack overflow —
+                    // not catchable as a panic) can be identified and replayed
+                    // in a child process by the driver.
+                    let mut journal = std::env::var("RFMON_JOURNAL_DIR").ok().and_then(|d| {
+                        let tid = format!("{:?}", std::thread::current().id()).replace(|c: char| !c.is_ascii_digit(), "");
+                        std::fs::File::create(format!("{d}/inflight-{}-{tid}", std::process::id())).ok()
+                    });
                     loop {
                         let start = next.fetch_add(chunk, Ordering::Relaxed);
                         if start >= count {
@@ -320,8 +329,16 @@ impl Report {
                         for i in start..(start + chunk).min(count) {
                             let mut rng = Rng::for_case(&cfg.prop, cfg.seed, stream, i);
                             local.cur_idx = i;
+                            if let Some(j) = journal.as_mut() {
+                                use std::os::unix::fs::FileExt;
+                                let _ = j.write_all_at(format!("{stream:>10} {i:>20}\n").as_bytes(), 0);
+                            }
                             f(&mut rng, i, &mut local);
                         }
+                    }
+                    if let Some(j) = journal.as_mut() {
+                        use std::os::unix::fs::FileExt;
+                        let _ = j.write_all_at(format!("{:>10} {:>20}\n", "done", 0).as_bytes(), 0);
                     }
                     merged.lock().unwrap().push(local);
                 });
